@@ -318,6 +318,7 @@ class Server:
         self._runner = self._main_task = self.app = self.backend = None
         self._wsgi = None
         drop_store_cache()
+        drop_module_caches()
         gc.collect()
 
     def kill(self):
@@ -330,6 +331,7 @@ class Server:
         self.loop = None
         asyncio.set_event_loop(None)
         drop_store_cache()
+        drop_module_caches()
         gc.collect()
 
     # ---- requests ---------------------------------------------------------
@@ -483,6 +485,24 @@ def drop_store_cache():
         xw.open_store_from_path.cache_clear()
     except Exception:
         pass
+
+
+def drop_module_caches():
+    """A restarted process has empty function caches.  The simulated restart keeps the
+    interpreter, so every functools cache found in the xandikos modules is cleared here;
+    other module-level state a change might add would survive (stated limit)."""
+    import sys
+
+    for name, mod in list(sys.modules.items()):
+        if not (name == "xandikos" or name.startswith("xandikos.")) or mod is None:
+            continue
+        for obj in list(vars(mod).values()):
+            cc = getattr(obj, "cache_clear", None)
+            if callable(cc):
+                try:
+                    cc()
+                except Exception:
+                    pass
 
 
 def quiet_logging():
